@@ -1,4 +1,5 @@
-"""C03 finding chain-3-links: PYTHONPATH=/repo /venv/bin/python findings/C03-chain-3-links.py"""
+"""C03 finding chain-3-links (repaired by 33cdc7f): PYTHONPATH=/repo /venv/bin/python findings/C03-chain-3-links.py
+Before the repair: the vector was accepted and the constant form raised TypeError."""
 import autofit as af
 
 
@@ -9,10 +10,10 @@ class G3:
 
 x, y, z = (af.UniformPrior(lower_limit=0.0, upper_limit=10.0) for _ in range(3))
 model = af.Model(G3, x=x, y=y, z=z)
-model.add_assertion(((x < y) < z) < z)          # x < y and y < z and z < z: can never hold
-instance = model.instance_from_vector([3.0, 2.0, 5.0])
-print("accepted although 3 < 2 is false:", instance.x, instance.y, instance.z)
+model.add_assertion(((x < y) < z) < 9.0)          # x < y and y < z and z < 9
 try:
-    ((x < y) < z) < 9.0
-except TypeError as e:
-    print("constant as last operand:", e)
+    instance = model.instance_from_vector([3.0, 2.0, 5.0])
+    print("DEFECT: accepted although 3 < 2 is false:", instance.x, instance.y, instance.z)
+except af.exc.FitException as e:
+    print("rejected, as it should be:", str(e).splitlines()[0])
+print("accepted:", vars(model.instance_from_vector([1.0, 2.0, 5.0])))
